@@ -492,15 +492,22 @@ func genC12(c *Ctx) {
 	}
 	// real constructors with and without an auth key, in the guarded child (while
 	// the wall-clock scenarios are still running)
-	for n := 0; n < c.Scale(8, 24); n++ {
+	nAuth, nSized := c.Scale(8, 24), c.Scale(3, 10)
+	for n := 0; n < nAuth+nSized; n++ {
 		in := c12GenAuth(c.R.Fork(uint64(300000+n)), n)
 		class := fmt.Sprintf("auth|c%d|key%d", in.List[0].I(), in.List[1].I())
+		if n >= nAuth {
+			in = c12GenSizes(c.R.Fork(uint64(400000+n)), n-nAuth, c.Thorough())
+			class = fmt.Sprintf("sizes|c%d|key%d", in.List[0].I(), in.List[1].I())
+		}
 		out := c.EmitGuarded("c12.auth", in, class).String()
 		switch {
 		case strings.Contains(out, "'crash") || strings.Contains(out, "'timeout"):
 			c.Fail("c12.auth", in, "process-crash", "the process died (or froze) during the scenario: "+out)
 		case strings.Contains(out, "'hang"):
 			c.Fail("c12.auth", in, "call-hangs", "a call under a caller deadline of 1 h did not return by the client timeout, or NewConnection did not return by its context deadline: "+trunc(out, 200))
+		case strings.Contains(out, "'query-undecodable"):
+			c.Fail("c12.auth", in, "query-undecodable", "the server could not read the adnl.message.query of a raw Request (sizes in the input): the call cannot get the answer for its own query: "+trunc(out, 200))
 		case strings.Contains(out, "'deaf"):
 			c.Fail("c12.auth", in, "deaf-connection", "after a frame it cannot parse the client keeps the connection open but reads nothing more: "+trunc(out, 200))
 		case strings.Contains(out, "'goroutine-growth"):
